@@ -107,19 +107,24 @@ Lemma si_inner_spec t offset prev rest :
   nondec (prev :: rest) ->
   exists taken rest', rest = taken ++ rest' /\
     si_inner t offset prev rest = Ok (offset + lenN taken, last taken prev, rest') /\
-    Forall (fun x => x <= t) taken /\ nondec (last taken prev :: rest').
+    Forall (fun x => x <= t) taken /\ nondec (last taken prev :: rest') /\
+    match rest' with [] => True | z :: _ => t < z end.
 Proof.
   revert offset prev. induction rest as [|value r IH]; intros offset prev Hnd.
   - exists [], []. cbn [si_inner app last]. rewrite lenN_nil, N.add_0_r.
-    split; [reflexivity|]. split; [reflexivity|]. split; [constructor|exact Hnd].
+    split; [reflexivity|]. split; [reflexivity|]. split; [constructor|]. split; [exact Hnd|exact I].
   - cbn [si_inner]. destruct (N.ltb_spec t value) as [Hgt|Hle].
     + exists [], (value :: r). cbn [app last]. rewrite lenN_nil, N.add_0_r.
-      split; [reflexivity|]. split; [reflexivity|]. split; [constructor|exact Hnd].
+      split; [reflexivity|]. split; [reflexivity|]. split; [constructor|]. split; [exact Hnd|exact Hgt].
     + destruct Hnd as [Hpv Hnd]. replace (prev <=? value) with true by lia.
-      destruct (IH (offset + 1) value Hnd) as (taken & rest' & -> & Hi & Hall & Hnd').
+      destruct (IH (offset + 1) value Hnd) as (taken & rest' & -> & Hi & Hall & Hnd' & Hup).
       exists (value :: taken), rest'. rewrite last_cons_default, lenN_cons. split; [reflexivity|].
-      split; [rewrite Hi; f_equal; f_equal; f_equal; lia|]. split; [constructor; assumption|assumption].
+      split; [rewrite Hi; f_equal; f_equal; f_equal; lia|]. split; [constructor; assumption|].
+      split; assumption.
 Qed.
+
+Lemma nthN_mid {A} (l1 l2 : list A) x : nthN (l1 ++ x :: l2) (lenN l1) = Some x.
+Proof. rewrite nthN_app_r by lia. replace (lenN l1 - lenN l1) with 0 by lia. reflexivity. Qed.
 
 Section New.
   Variable V : list N.        (* the values *)
@@ -129,7 +134,9 @@ Section New.
      and they are non-decreasing *)
   Definition Sgood (j : N) (S : list N) (off : N) : Prop :=
     (forall i, i < j -> exists x y, nthN S i = Some x /\ x <= off /\ nthN V x = Some y /\ y <= i * d) /\
-    (forall i1 i2 x1 x2, i1 <= i2 -> i2 < j -> nthN S i1 = Some x1 -> nthN S i2 = Some x2 -> x1 <= x2).
+    (forall i1 i2 x1 x2, i1 <= i2 -> i2 < j -> nthN S i1 = Some x1 -> nthN S i2 = Some x2 -> x1 <= x2) /\
+    (forall i x, 1 <= i -> i < j -> nthN S i = Some x ->
+       x + 1 = lenN V \/ exists z, nthN V (x + 1) = Some z /\ i * d < z).
 
   Lemma si_outer_spec m count : forall j sv S offset prev done rest,
     V = done ++ rest -> done <> [] -> lenN done = offset + 1 -> last done 0 = prev ->
@@ -144,13 +151,13 @@ Section New.
     induction count as [|k IH]; intros j sv S offset prev done rest HV Hne Hlen Hlast Hnd Hr HlS Hj Hj1 Hprev Hgood Hfit Hw.
     - cbn [si_outer]. exists sv, S, prev. replace ns with j by lia.
       split; [reflexivity|]. split; [assumption|]. split; [lia|]. split; [assumption|].
-      destruct Hgood as [G1 G2]. split; [|exact G2].
+      destruct Hgood as (G1 & G2 & G3). split; [|split; [exact G2|exact G3]].
       intros i Hi. destruct (G1 i Hi) as (x & y & Hx & Hxo & Hy & Hyi). exists x, y.
       repeat split; try assumption. rewrite HV, lenN_app. lia.
     - cbn [si_outer].
       assert (Hjd : j * d <= (ns - 1) * d) by (apply N.mul_le_mono_r; lia).
       rewrite umul_ok by lia. cbn [bind].
-      destruct (si_inner_spec (j * d) offset prev rest Hnd) as (taken & rest' & Hrest & Hin & Hall & Hnd').
+      destruct (si_inner_spec (j * d) offset prev rest Hnd) as (taken & rest' & Hrest & Hin & Hall & Hnd' & Hup).
       rewrite Hin. cbn [bind].
       set (offset' := offset + lenN taken). set (prev' := last taken prev).
       assert (Hoff' : offset' + 1 <= lenN V).
@@ -171,7 +178,7 @@ Section New.
       + rewrite lenN_app. subst offset'. lia.
       + rewrite last_app_default, Hlast. reflexivity.
       + rewrite lenN_setN. assumption.
-      + destruct Hgood as [G1 G2]. split.
+      + destruct Hgood as (G1 & G2 & G3). split; [|split].
         * intros i Hi. rewrite nthN_setN_any.
           destruct (N.eqb_spec i j) as [->|Hne']; cbn [andb].
           -- replace (j <? lenN S) with true by lia. exists offset', prev'. repeat split; try assumption; lia.
@@ -185,6 +192,15 @@ Section New.
              ++ destruct (G1 i1 ltac:(lia)) as (x & y & Hx & Hxo & _). assert (x = x1) by congruence. subst offset'. lia.
           -- destruct (N.eqb_spec i1 j) as [->|Hne1]; cbn [andb] in Hx1; [lia|].
              eapply (G2 i1 i2); eauto. lia.
+        * intros i x Hi1 Hi Hx. rewrite nthN_setN_any in Hx.
+          destruct (N.eqb_spec i j) as [->|Hne']; cbn [andb] in Hx.
+          -- replace (j <? lenN S) with true in Hx by lia. injection Hx as <-.
+             destruct rest' as [|z rest''].
+             ++ left. rewrite HV, Hrest, app_nil_r, !lenN_app. subst offset'. lia.
+             ++ right. exists z. split; [|exact Hup].
+                replace (offset' + 1) with (lenN (done ++ taken)) by (rewrite lenN_app; subst offset'; lia).
+                rewrite HV, Hrest, app_assoc. apply nthN_mid.
+          -- eapply G3; eauto. lia.
   Qed.
 End New.
 
@@ -194,7 +210,9 @@ Definition si_ok (si : sindex) (V : list N) (U : N) : Prop :=
     si_num_values si = lenN V /\ si_divisor si = d /\ iv_rep (si_samples si) w S /\
     1 <= d /\ U <= lenN S * d /\
     (forall i, i < lenN S -> exists x y, nthN S i = Some x /\ nthN V x = Some y /\ y <= i * d) /\
-    (forall i1 i2 x1 x2, i1 <= i2 -> nthN S i1 = Some x1 -> nthN S i2 = Some x2 -> x1 <= x2).
+    (forall i1 i2 x1 x2, i1 <= i2 -> nthN S i1 = Some x1 -> nthN S i2 = Some x2 -> x1 <= x2) /\
+    (forall i x, 1 <= i -> nthN S i = Some x ->
+       x + 1 = lenN V \/ exists z, nthN V (x + 1) = Some z /\ i * d < z).
 
 (* the index built for no values or an empty universe *)
 Definition si_is_empty (si : sindex) : Prop :=
@@ -231,29 +249,32 @@ Proof.
   change (negb (0 =? 0)) with false. cbn iota.
   rewrite (iv_rep_ilen _ _ _ Hr), lenN_repeatN, N2Nat.id.
   destruct (si_outer_spec (0 :: rest) d ns w m (N.to_nat ns - 1) 1 sv (repeatN 0 (N.to_nat ns)) 0 0 [0] rest)
-    as (sv' & S' & prev' & Ho & Hr' & HlS' & Hprev' & G1 & G2); try assumption; try reflexivity; try lia.
+    as (sv' & S' & prev' & Ho & Hr' & HlS' & Hprev' & G1 & G2 & G3); try assumption; try reflexivity; try lia.
   - discriminate.
   - rewrite lenN_repeatN. lia.
-  - split.
+  - split; [|split].
     + intros i Hi. exists 0, 0. assert (i = 0) by lia. subst i.
       split; [apply nthN_repeatN_lt; lia|]. split; [lia|]. split; [reflexivity|lia].
     + intros i1 i2 x1 x2 _ Hi2 Hx1 Hx2. apply nthN_repeatN in Hx1. apply nthN_repeatN in Hx2. lia.
+    + intros i x Hi1 Hi2. lia.
   - rewrite Ho. cbn [bind]. replace (prev' <? U) with true by lia.
     eexists. split; [reflexivity|]. exists S', d, w. cbn [si_num_values si_divisor si_samples].
     split; [reflexivity|]. split; [reflexivity|]. split; [assumption|]. split; [assumption|].
-    split; [rewrite HlS'; assumption|]. split.
+    split; [rewrite HlS'; assumption|]. split; [|split].
     + intros i Hi. destruct (G1 i ltac:(lia)) as (x & y & Hx & _ & Hy & Hyi). exists x, y. auto.
     + intros i1 i2 x1 x2 H12 Hx1 Hx2. eapply (G2 i1 i2); eauto.
       pose proof (nthN_Some_lt _ _ _ Hx2). lia.
+    + intros i x Hi1 Hx. eapply (G3 i x); eauto. pose proof (nthN_Some_lt _ _ _ Hx). lia.
 Qed.
 
 (* ---- range ---- *)
 
-Lemma si_range_spec m si V U x :
+Lemma si_range_full m si V U x :
   si_ok si V U -> x < U -> U < 2 ^ 64 ->
-  exists s e y, si_range m si x = Ok (s, e) /\ s < e /\ e <= lenN V /\ nthN V s = Some y /\ y <= x.
+  exists s e y, si_range m si x = Ok (s, e) /\ s < e /\ e <= lenN V /\ nthN V s = Some y /\ y <= x /\
+    (e = lenN V \/ exists z, nthN V e = Some z /\ x < z).
 Proof.
-  intros (S & d & w & Hnv & Hdv & Hr & Hd & HU & G1 & G2) Hx HU64.
+  intros (S & d & w & Hnv & Hdv & Hr & Hd & HU & G1 & G2 & G3) Hx HU64.
   unfold si_range. rewrite Hdv, Hnv. rewrite udiv_ok by lia. cbn [bind].
   set (o := x / d).
   assert (Ho : o < lenN S) by (subst o; apply N.div_lt_upper_bound; [lia|]; rewrite N.mul_comm; lia).
@@ -270,9 +291,23 @@ Proof.
     pose proof (nthN_Some_lt _ _ _ Hy1) as Hs1V.
     replace (s1 <? lenN V) with true by lia.
     assert (s <= s1) by (eapply (G2 o (o + 1)); eauto; lia).
-    exists s, (s1 + 1), y. repeat split; try assumption; lia.
+    assert (Hlt : x < (o + 1) * d).
+    { subst o. pose proof (N.div_mod x d ltac:(lia)). pose proof (N.mod_lt x d ltac:(lia)). nia. }
+    exists s, (s1 + 1), y. split; [reflexivity|]. split; [lia|]. split; [lia|]. split; [assumption|].
+    split; [lia|].
+    destruct (G3 (o + 1) s1 ltac:(lia) Hs1) as [He|(z & Hz & Hzd)]; [left; exact He|right].
+    exists z. split; [exact Hz|lia].
   - replace (lenN V <? lenN V) with false by lia.
-    exists s, (lenN V), y. repeat split; try assumption; lia.
+    exists s, (lenN V), y. split; [reflexivity|]. split; [lia|]. split; [lia|]. split; [assumption|].
+    split; [lia|left; reflexivity].
+Qed.
+
+Lemma si_range_spec m si V U x :
+  si_ok si V U -> x < U -> U < 2 ^ 64 ->
+  exists s e y, si_range m si x = Ok (s, e) /\ s < e /\ e <= lenN V /\ nthN V s = Some y /\ y <= x.
+Proof.
+  intros H1 H2 H3. destruct (si_range_full m si V U x H1 H2 H3) as (s & e & y & A & B & C & D & E & _).
+  exists s, e, y. auto.
 Qed.
 
 Lemma si_range_empty m si x : si_is_empty si -> x < MAXU -> si_range m si x = Ok (0, 0).
@@ -313,4 +348,36 @@ Proof.
       { intros i Hi. apply Hf. lia. }
       exists i. split; [assumption|]. split; [lia|]. split; [lia|]. assumption.
   - exists low. split; [reflexivity|]. split; [lia|]. split; [right; reflexivity|left; reflexivity].
+Qed.
+
+(* for a monotone key the LAST index of the range with key <= x is returned *)
+Lemma block_for_last fuel m x f g low0 high0 : forall low high,
+  (forall i, low0 <= i < high0 -> f i = Ok (g i)) ->
+  (forall i j, low0 <= i -> i <= j -> j < high0 -> g i <= g j) ->
+  low0 <= low -> low < high -> high <= high0 ->
+  g low <= x -> (high = high0 \/ x < g high) ->
+  high - low <= 2 ^ (N.of_nat fuel - 1) -> (1 <= fuel)%nat ->
+  exists i, rl_block_for fuel m low high x f = Ok i /\ low <= i < high /\ g i <= x /\
+            forall j, i < j -> j < high0 -> x < g j.
+Proof.
+  induction fuel as [|k IH]; intros low high Hf Hmono Hl0 Hlt Hh0 Hg Hup Hd Hk; [lia|].
+  cbn [rl_block_for]. rewrite usub_ok by lia. cbn [bind].
+  destruct (N.ltb_spec 1 (high - low)) as [Hgt|Hsmall].
+  - set (mid := low + (high - low) / 2).
+    assert (Hmid : low < mid < high) by (subst mid; lia).
+    rewrite Hf by lia. cbn [bind].
+    assert (Hk1 : (1 <= k)%nat).
+    { destruct k; [|lia]. change (2 ^ (N.of_nat 1 - 1)) with 1 in Hd. lia. }
+    assert (Hpow : 2 ^ (N.of_nat (S k) - 1) = 2 * 2 ^ (N.of_nat k - 1)).
+    { replace (N.of_nat (S k) - 1) with (N.succ (N.of_nat k - 1)) by lia. apply N.pow_succ_r'. }
+    rewrite Hpow in Hd.
+    destruct (N.leb_spec (g mid) x) as [Hc|Hc].
+    + destruct (IH mid high) as (i & Hi & H1 & H2 & H3); try assumption; try lia.
+      exists i. split; [assumption|]. split; [lia|]. split; assumption.
+    + destruct (IH low mid) as (i & Hi & H1 & H2 & H3); try assumption; try lia.
+      exists i. split; [assumption|]. split; [lia|]. split; assumption.
+  - exists low. split; [reflexivity|]. split; [lia|]. split; [assumption|].
+    intros j Hj1 Hj2. assert (high <= j) by lia.
+    destruct Hup as [->|Hup]; [lia|].
+    assert (g high <= g j) by (apply Hmono; lia). lia.
 Qed.
